@@ -29,9 +29,9 @@ def peer(probe):
     return reply
 
 
-def build(init_state, init_online, probe, events_enabled=True):
+def build(init_state, init_online, probe, events_enabled=True, t3=0.05):
     import secsgem.gem.collection_event_capability as CEC
-    handler, proto, conn = H.make_gem("equipment", init_state, init_online, t3=0.05)
+    handler, proto, conn = H.make_gem("equipment", init_state, init_online, t3=t3)
     conn.auto_reply = peer(probe)
     H.gem_to_communicating(handler, proto, conn)
     if events_enabled:
@@ -251,3 +251,101 @@ def fd_steps():
     obs = [{"name": n, "ok": n not in by, "witness": by[n]["witness"] if n in by else None, "detail": by[n]["detail"] if n in by else ""} for n in names]
     return {"obligations": obs, "domain": "{EO,HO,OL,OR} x remembered {LOCAL,REMOTE} x 6 events x probe outcome {S1F2,S1F0,none} + 8 initial configurations",
             "size": total, "exhaustive": True, "samples": [{"state": HO, "event": "s1f17", "expect": "ONLINE(m), ONLACK 0"}]}
+
+
+def apply_event(handler, conn, event, n):
+    """Perform one operator / host event on the real handler; returns the name of the exception an operator call raised."""
+    try:
+        if event == "op-online":
+            handler.control_switch_online()
+        elif event == "op-offline":
+            handler.control_switch_offline()
+        elif event == "op-local":
+            handler.control_switch_online_local()
+        elif event == "op-remote":
+            handler.control_switch_online_remote()
+        elif event == "s1f15":
+            conn.feed(H.frame(0, 0x15150000 + n, 1, 15, True, b""))
+        elif event == "s1f17":
+            conn.feed(H.frame(0, 0x17170000 + n, 1, 17, True, b""))
+    except Exception as exc:
+        return type(exc).__name__
+    return None
+
+
+def short_histories(tier, seed, init_state, init_online):
+    """Every history of operator and host events up to a length, from every initial configuration, on ONE handler per history,
+    against the E30 reference model run alongside (state and remembered sub-state are the MODEL's, not read from the
+    implementation): state kept anywhere else in the implementation between steps (a cache, a flag) shows up here, which the
+    one-step contract - whose start configurations are read from the implementation's own fields - cannot see."""
+    import secsgem.gem.collection_event_capability as CEC
+    fails = Fail()
+    total = 0
+    n_hist = 0
+    events = ("op-online", "op-offline", "op-local", "op-remote", "s1f15", "s1f17")
+    depth = {"s1f2": 5, "s1f0": 4, "none": 3} if tier == "thorough" else {"s1f2": 4, "s1f0": 3, "none": 2}
+    with H.virtual_timers(), H.inline_threads(CEC):
+        for probe in ("s1f2", "s1f0", "none"):
+            for history in itertools.product(events, repeat=depth[probe]):
+                n_hist += 1
+                handler, proto, conn = build(init_state, init_online, probe, t3=0.002)
+                try:
+                    state = {"EQUIPMENT_OFFLINE": EO, "HOST_OFFLINE": HO, "ONLINE": OL if init_online == "LOCAL" else OR}[init_state]
+                    m = init_online
+                    if current(handler) != state:
+                        fails.add("history.initial-state", {"config": [init_state, init_online], "got": current(handler), "want": state}, "initial control state differs")
+                        break
+                    for n, event in enumerate(history):
+                        total += 1
+                        w = {"config": [init_state, init_online], "probe": probe, "history": list(history[:n + 1]), "model_state_before": state, "model_remembered": m}
+                        nxt, raises, ack, ces = expected(state, m, event, probe)
+                        conn.sent.clear()
+                        raised = apply_event(handler, conn, event, n)
+                        now = current(handler)
+                        frames = [f for f in conn.frames() if f["stype"] == 0]
+                        ok = True
+                        if now != nxt:
+                            ok = False
+                            fails.add("history.next-state", dict(w, got=now, want=nxt), "control state after this history differs from the E30 model")
+                        if (not raises) and raised is not None:
+                            ok = False
+                            fails.add("history.allowed-accepted", dict(w, raised=raised), "an allowed operator request raised")
+                        if ack is not None:
+                            acks = [(f["function"], f["body"]) for f in frames if f["stream"] == 1 and f["function"] in (16, 18)]
+                            if acks != [(ack[0], R.encode(("B", bytes([ack[1]]))))]:
+                                ok = False
+                                fails.add("history.acknowledge-code", dict(w, got=[(a[0], a[1].hex()) for a in acks], want=ack), "S1F16/S1F18 acknowledge code differs from the one E30 assigns to the state in which the request arrived")
+                        got_ces = [R.parse(f["body"])[0][1][1][1][0] for f in frames if (f["stream"], f["function"]) == (6, 11)]
+                        if sorted(got_ces) != sorted(ces):
+                            ok = False
+                            fails.add("history.collection-events", dict(w, got=got_ces, want=ces), "control-state collection events differ from the transitions the model performs")
+                        conn.sent.clear()
+                        conn.feed(H.frame(0, 0x1003, 1, 3, True, R.encode(("L", [("U4", [1002])]))))
+                        rsp = [f for f in conn.frames() if (f["stream"], f["function"]) == (1, 4)]
+                        val = R.parse(rsp[0]["body"])[0][1][0][1][0] if rsp else None
+                        if val != SVID_VALUE[now]:
+                            ok = False
+                            fails.add("history.status-variable-equals-state", dict(w, state_now=now, svid_1002=val), "the reported control-state status variable differs from the current state")
+                        if not ok:
+                            break
+                        state = nxt
+                        if state == OL:
+                            m = "LOCAL"
+                        elif state == OR:
+                            m = "REMOTE"
+                finally:
+                    H.shutdown(proto, conn)
+    return {"evaluations": total, "distinct": n_hist, "failures": list(fails),
+            "scope": f"ALL histories over {{op-online, op-offline, op-local, op-remote, S1F15, S1F17}} of length {depth} (by probe outcome), every prefix judged, from the initial configuration ({init_state}, {init_online}); state and remembered sub-state carried by the reference model",
+            "rule": "distinct = histories; evaluations = judged steps", "samples": [{"config": ["ONLINE", "LOCAL"], "history": ["op-remote", "s1f15", "s1f17"], "expect": "ONLINE_REMOTE, CEID 3, SVID 1002 = 5"}]}
+
+
+def _register_histories():
+    for init_state, init_online in itertools.product(("EQUIPMENT_OFFLINE", "HOST_OFFLINE", "ONLINE"), ("LOCAL", "REMOTE")):
+        def one(tier, seed, init_state=init_state, init_online=init_online):
+            return short_histories(tier, seed, init_state, init_online)
+        one.__module__ = __name__
+        bounded("C11", f"all-short-histories[{init_state},{init_online}]")(one)
+
+
+_register_histories()
